@@ -951,8 +951,7 @@ impl<'de, R: Read<'de>> Parser<R> {
                     }
                     b'.' => {
                         self.eat_char();
-                        let next = self.peek_or_null()?;
-                        if next == 0 || is_symbol_terminator(next) {
+                        if self.peek()?.map_or(true, is_symbol_terminator) {
                             if !have_value {
                                 return Err(match self.peek()? {
                                     Some(_) => self.peek_error(ErrorCode::ExpectedSomeValue),
@@ -1015,8 +1014,7 @@ impl<'de, R: Read<'de>> Parser<R> {
                     b'.' => {
                         let start = self.read.position();
                         self.eat_char();
-                        let next = self.peek_or_null()?;
-                        if next == 0 || is_symbol_terminator(next) {
+                        if self.peek()?.map_or(true, is_symbol_terminator) {
                             if !have_value {
                                 return Err(match self.peek()? {
                                     Some(_) => self.peek_error(ErrorCode::ExpectedSomeValue),
